@@ -272,6 +272,36 @@ def _init_worker(modname):
         _MODULE.worker_init()
 
 
+class _LineTimeout(BaseException):
+    """raised by the CPU-time watchdog of one evaluation (BaseException: `except Exception` does not swallow it)"""
+
+
+def _vt_handler(_sig, _frm):
+    raise _LineTimeout()
+
+
+# CPU seconds one line may take on one side before it is cut off (CPU time of the worker process: machine load does
+# not count).  Ordinary lines take milliseconds; the limits only bound pathological cases so that a check always ends.
+IMPL_CPU_LIMIT = float(os.environ.get("VERIF_IMPL_CPU_LIMIT", "600"))
+ORACLE_CPU_LIMIT = float(os.environ.get("VERIF_ORACLE_CPU_LIMIT", "300"))
+SLOW_REPORT_S = float(os.environ.get("VERIF_SLOW_REPORT", "60"))
+
+
+def _cpu_limited(fn, secs):
+    """(value, timed_out, cpu seconds used)"""
+    import signal
+    t0 = time.process_time()
+    old = signal.signal(signal.SIGVTALRM, _vt_handler)
+    signal.setitimer(signal.ITIMER_VIRTUAL, secs)
+    try:
+        return fn(), False, time.process_time() - t0
+    except _LineTimeout:
+        return None, True, time.process_time() - t0
+    finally:
+        signal.setitimer(signal.ITIMER_VIRTUAL, 0)
+        signal.signal(signal.SIGVTALRM, old)
+
+
 def _eval_chunk(chunk):
     """chunk: list of lines -> list of (impl_out, oracle_out or None, nontrivial)"""
     res = []
@@ -280,13 +310,22 @@ def _eval_chunk(chunk):
         toks = line.split(" ")
         op, args = toks[0], toks[1:]
         try:
-            io = m.impl(op, args)
+            io, cut, used = _cpu_limited(lambda: m.impl(op, args), IMPL_CPU_LIMIT)
+            if cut:
+                io = "ERR:Timeout(no answer within %d CPU seconds)" % IMPL_CPU_LIMIT
+            if used > SLOW_REPORT_S:
+                sys.stderr.write("SLOW implementation side (%.0f CPU s): %s\n" % (used, line[:300]))
         except Exception as e:  # harness fault, reported distinctly
             io = "HARNESS-FAULT:" + type(e).__name__ + ":" + str(e)[:200] + traceback.format_exc()[-400:].replace("\n", " | ")
         oo = None
         if hasattr(m, "oracle"):
             try:
-                oo = m.oracle(op, args)
+                oo, cut, used = _cpu_limited(lambda: m.oracle(op, args), ORACLE_CPU_LIMIT)
+                if cut:
+                    oo = None          # the brute-force oracle is silent on this line (the model still answers)
+                    sys.stderr.write("ORACLE silent after %d CPU s: %s\n" % (ORACLE_CPU_LIMIT, line[:300]))
+                elif used > SLOW_REPORT_S:
+                    sys.stderr.write("SLOW oracle side (%.0f CPU s): %s\n" % (used, line[:300]))
             except Exception as e:
                 oo = "ORACLE-FAULT:" + type(e).__name__ + ":" + str(e)[:200]
         nt = True
